@@ -260,8 +260,8 @@ def ret_causes(E, spec):
         for idx, t in enumerate(tl):
             if t["t"] != "ins" or t.get("dead"):
                 continue
-            if t["ins"][0] == "call":
-                tgt_owner = owner.get(t["ins"][1])
+            for callee_lab in _callees(t["ins"]):
+                tgt_owner = owner.get(callee_lab)
                 if tgt_owner in dead_np:
                     out.add("RA")
                 elif tgt_owner in order and tgt_owner not in per and order.index(tgt_owner) + 1 < len(order) and order[order.index(tgt_owner) + 1] in dead_np:
@@ -301,8 +301,8 @@ def ret_causes(E, spec):
     patch_call_funcs = set()
     for tl in toks.values():
         for t in tl:
-            if t["t"] == "ins" and t["ins"][0] == "call":
-                f = func_of_blk.get(owner.get(t["ins"][1]))
+            for callee_lab in (_callees(t["ins"]) if t["t"] == "ins" else ()):
+                f = func_of_blk.get(owner.get(callee_lab))
                 if f and t.get("dead"):
                     dead_call_funcs.add(f)
                 if f and not t.get("dead") and t["uid"][0] == "patch":
@@ -314,6 +314,15 @@ def ret_causes(E, spec):
         if typ == "Fallthrough" and E.insns[src]["ins"][0] in ("call", "icall") and ft_cause(E, src, spec) == "K1":
             out.add("RG")
     return sorted(out) or ["unexplained"]
+
+
+def _callees(ins):
+    """labels an instruction calls: a direct call, or an indirect call whose possible callees the CFG knows"""
+    if ins[0] == "call":
+        return (ins[1],)
+    if ins[0] == "icall":
+        return tuple(ins[1:])
+    return ()
 
 
 def _cause(E, x, spec):
